@@ -65,6 +65,9 @@ func ParseFile(f FileInput, opts ...Option) (prog *Prog, _ error) {
 				rerr <- nil
 				break
 			}
+			if n == 0 {
+				continue // nothing was read; an empty chunk would mean end of input
+			}
 			select {
 			case inpc <- string(b[:n]):
 				continue
